@@ -30,4 +30,15 @@ theorem tie_sort_voting_params (quant : Rat → Int) (mult mahaThr : Rat) (metho
 example (quant : Rat → Int) (n : Nat) (stats : List Nat) :
     (sort_voting_params quant Gen.F32_U64_MULT Gen.MAHALANOBIS_NEW_TRACK_THRESHOLD .maha n stats).threshold = quant (1 * 1000000) := rfl
 
+/-- **VisualSORT's voting parameters** (simple and batch tracker alike): the positional threshold of the configured metric, **no
+bound on the feature distance** (`f32::MAX`: the appearance stage filters by votes only — `Model/Tracker.lean` `visualDecided` uses
+`F32_MAX` too), and the configured minimum number of votes -/
+theorem tie_visual_voting_params (mahaThr f32max : Rat) (kind : PosKind) (minVotes : Nat) :
+    visual_voting_params mahaThr f32max kind minVotes =
+      { positional_threshold := thrOf mahaThr kind, max_allowed_feature_distance := f32max, min_winner_feature_votes := minVotes } := by
+  cases kind <;> rfl
+
+theorem tie_batch_visual_voting_params (mahaThr f32max : Rat) (kind : PosKind) (minVotes : Nat) :
+    batch_visual_voting_params mahaThr f32max kind minVotes = visual_voting_params mahaThr f32max kind minVotes := rfl
+
 end SimVerif.Tie
